@@ -29,6 +29,25 @@ def floors(tier):
             'len:dialects_accepting': 3, 'len:productions:mindsdb': 300}
 
 
+def skipped_text(gap):
+    """None if `gap` holds only blanks and complete comments, else the text that is neither."""
+    i, n = 0, len(gap)
+    while i < n:
+        if gap[i].isspace():
+            i += 1
+        elif gap.startswith('--', i):
+            j = gap.find('\n', i)
+            i = n if j < 0 else j + 1
+        elif gap.startswith('/*', i):
+            j = gap.find('*/', i + 2)
+            if j < 0:
+                return gap[i:]
+            i = j + 2
+        else:
+            return gap[i:]
+    return None
+
+
 def judge(dialect, text, rec, result, exc):
     """Returns None or (sig, detail)."""
     P = monitors.parser_classes()[dialect]
@@ -46,6 +65,18 @@ def judge(dialect, text, rec, result, exc):
     if tap != types:
         return ({'kind': 'parser-fed-other-tokens', 'dialect': dialect},
                 {'offered': tap[:50], 'lexed': types[:50]})
+    # nothing but blanks and comments between the tokens: the reference reading of a comment is `--` to the end of the
+    # line and `/*` up to the FIRST `*/` (scanned by hand - a regular expression would back-track to a later `*/`)
+    import re as _re
+    stripped = _re.sub(r'[\s;]+$', '', text)
+    pos = 0
+    spans = [(t[2], t[3]) for t in full] + [(len(stripped), len(stripped))]
+    for a, b in spans:
+        gap = stripped[pos:a]
+        bad = skipped_text(gap)
+        if bad is not None:
+            return ({'kind': 'text-skipped-between-tokens', 'dialect': dialect}, {'gap': gap[:120], 'skipped': bad[:60], 'at': pos})
+        pos = max(pos, b)
     ok, why = monitors.check_certificate(prods, start, rec.reductions, types)
     if not ok:
         import re
